@@ -405,6 +405,17 @@ def run_part(part, P, pid, tier, seed, sdir, only, binaries, gen_path, idx):
         extra_consts=part.get("trace_consts"), heap=part.get("trace_heap", "3g"))
     lines = read_trace(trace)
     blocks = [l for l in lines if l.get("ev") in block_ev]
+    if part.get("drift_props"):
+        # model-conformance monitors (DRIFT.*): a pass of their own; whatever happens in it decides nothing
+        try:
+            dfails, _, ds, dt, _ = validate_trace(sdir, part["trace_module"], part["trace_cfg"], trace, part["drift_props"], nparts, block_ev,
+                                                  extra_consts=part.get("trace_consts"), heap=part.get("trace_heap", "3g"))
+            vstates += ds
+            vtrans += dt
+            fails += [f for f in dfails if str(f.get("mon", "")).startswith("DRIFT.")]
+        except vf.NoVerdict as ex:
+            fails.append({"mon": "DRIFT.aborted", "id": 0, "fam": part["mode"],
+                          "info": {"what": "the model-conformance pass did not complete (it decides no property)", "detail": str(ex)[-400:]}})
     for f in fails:
         f["part"] = idx
     conn = None
@@ -574,7 +585,7 @@ REGISTRY = {
                 rule="scenario = unit sequence over C02's 13-unit alphabet (exhaustive from TLC up to the tier's bound, random beyond), "
                      "all casings of begin/commit/rollback drawn per scenario; distinct by content; non-trivial = contains a committing unit"),
     "C04": dict(parts=[dict(mode="c04", trace_module="Trace_Stream", trace_cfg="Trace_Stream.cfg", props=["C04"]),
-                       dict(mode="c04g", conn=True, trace_module="Trace_Stream", trace_cfg="Trace_Stream.cfg", props=["C04"])],
+                       dict(mode="c04g", conn=True, trace_module="Trace_Stream", trace_cfg="Trace_Stream.cfg", props=["C04"], drift_props=["D04"])],
                 mc=[MC_SESSION], nontrivial=has_tx, assumptions=STREAM_ASSUME,
                 gen=dict(module="Gen_Session", cfg={"quick": "Gen_Session.quick.cfg",
                                                     "thorough": ["Gen_Session.thorough.cfg", "Gen_Session.thorough2.cfg"]}),
@@ -584,8 +595,8 @@ REGISTRY = {
                      "Part 2: EVERY session of the TLC model MC_Session within the bound (Gen_Session: logs of <= 2 units x one fault action at "
                      "every point + clean attempt in quick; <= 3 units, and <= 2 units with two failed attempts, in thorough) replayed on the "
                      "real Streamer with hook tracing; each attempt's hook trace is validated packet by packet against Streamer!Step"),
-    "C05": dict(parts=[dict(mode="c05", race=True, conn=True, trace_module="Trace_Stream", trace_cfg="Trace_Stream.cfg", props=["C05"]),
-                       dict(mode="c05g", conn=True, trace_module="Trace_Stream", trace_cfg="Trace_Stream.cfg", props=["C05"])],
+    "C05": dict(parts=[dict(mode="c05", race=True, conn=True, trace_module="Trace_Stream", trace_cfg="Trace_Stream.cfg", props=["C05"], drift_props=["D05"]),
+                       dict(mode="c05g", conn=True, trace_module="Trace_Stream", trace_cfg="Trace_Stream.cfg", props=["C05"], drift_props=["D05"])],
                 mc=[MC_CONN, MC_CONN_SPEC], nontrivial=has_tx, assumptions=STREAM_ASSUME + [
                     "the data-race clause is decided by the Go race detector on the replayed schedules (the Go memory model is not modelled in TLA+)"],
                 gen=GEN_CONN,
@@ -595,7 +606,7 @@ REGISTRY = {
                      "thorough) replayed on the real code with the library's hook points as scheduler gates, so that the real goroutines "
                      "take their steps in the order TLC chose; followed by a clean attempt"),
     "C06": dict(parts=[dict(mode="c06", conn=True, trace_module="Trace_Stream", trace_cfg="Trace_Stream.cfg", props=["C06"]),
-                       dict(mode="c06g", conn=True, trace_module="Trace_Stream", trace_cfg="Trace_Stream.cfg", props=["C06"])],
+                       dict(mode="c06g", conn=True, trace_module="Trace_Stream", trace_cfg="Trace_Stream.cfg", props=["C06"], drift_props=["D06"])],
                 mc=[MC_CONN, MC_CONN_SPEC], gen=GEN_CONN,
                 nontrivial=has_tx, assumptions=STREAM_ASSUME,
                 rule="same schedule classes as C05 with arbitrary master error codes/messages; distinct by content; plus the TLC-generated "
